@@ -58,6 +58,9 @@ let comp_digit line =
                      | None -> "0")
        | _ -> "0") in
     m ^ " " ^ code
+  | ["Q"; m; e; _] | ["Q"; m; e] ->
+    (* measurement only: is (mantissa, negative decimal exponent) inside the class of c09_neg_power_one_ulp_guarded? *)
+    (if pnt_guard (n_of_string m) (n_of_string e) then "1" else "0") ^ " 1"
   | _ -> "BADCASE 0"
 
 let () = main_loop comp_digit
